@@ -322,8 +322,10 @@ fn check_case(idx: u64, d: &DefCtx, call: &[Tok], full_state: bool, distinct: &d
                 Outcome::Cutoff => acc.cutoffs += 1,
                 _ => {
                     let args: Vec<String> = c.args.iter().map(|a| mm::show(a)).collect();
+                    // diagnostic (not a vacuity counter): does the failing case have the argument shape of defect D3?
+                    acc.count(if f.brace_to_brace_not_single { "diag_failing_match_with_a_brace_to_brace_argument_that_is_not_one_group" } else { "diag_failing_match_of_any_other_shape" });
                     acc.class(&format!("match DIFFERS np={} flags={bits} impl={}", c.args.len(), out.class()));
-                    acc.fail(idx, case(), mm::show(&want), out.show(), format!("the call matches (TeX binds {args:?}, {} tokens consumed) but the captured expansion + rest differs", c.consumed));
+                    acc.fail(idx, case(), mm::show(&want), out.show(), format!("{}: the call matches (TeX binds {args:?}, {} tokens consumed) but the captured expansion + rest differs", if f.brace_to_brace_not_single { "binding differs [an argument {..}..{..} that is not one group]" } else { "binding differs [other shape]" }, c.consumed));
                 }
             }
         }
@@ -589,7 +591,7 @@ fn main() {
     for three in [false, true] {
         let specs = defs_for_strings(three);
         let defs = build_ctxs(specs, &mut ctx);
-        let maxlen = if three { ctx.pick(4u32, 6u32) } else { f1_maxlen as u32 };
+        let maxlen = if three { ctx.pick(5u32, 6u32) } else { f1_maxlen as u32 };
         let ncalls = vcore::strings_upto(7, maxlen);
         let n = defs.len() as u64 * ncalls;
         let dref = &defs;
